@@ -20,12 +20,15 @@ func init() {
 			"write lock (so Get cannot use RLock); (bijection) in every function map insert ⇔ size++ ⇔ policy.Admit and map delete ⇔ size-- ⇔ policy.Remove travel together on every path; (bounded) Set's insert path passes a " +
 			"size == / >= Capacity() test whose full edge evicts (a `>` would admit capacity+1); (callback-exactly-once) evictItem notifies exactly once per path (sync callback or one event), processEvents calls the callback only for " +
 			"evictItem events, Delete and Set-update never notify, Close drains before shutdown which waits for the event goroutine; (admit-registers) for EVERY policy implementation whatever Access/Remove look up unconditionally " +
-			"(c.keys[item.key], item.parent) is populated on every path of Admit; (no-reentry) the evict callbacks the SDK installs cannot reach a method of a cache synchronously. Victim choice and sketch arithmetic are not decided.",
-		NotDecided:  []string{"which victim LRU/LFU/SLRU/TinyLFU choose (value-level)", "lookup-returns-latest-value over operation sequences", "count-min sketch / bloom filter arithmetic", "behaviour at capacity 0", "asynchronous callback timing"},
+			"(c.keys[item.key], item.parent) is populated on every path of Admit; (no-reentry) the evict callbacks the SDK installs cannot reach a method of a cache synchronously; (list structure) every policy keeps each item on exactly one list with item.parent naming its element: Remove unlinks on every path, " +
+			"a push of a value already on a list travels with the unlink of its old element, the element a push returns is recorded before any other list mutation, tinyLFU segment moves re-admit; (removal-notifies / expiry-evicts / " +
+			"set-stores-value) entries leave byKey only through evictItem or Delete, an expired entry found by Get is evicted, Set really stores its value; (victim-nonnil) a Victim() result is dereferenced only where emptiness is excluded " +
+			"(reports the capacity-0 panic, known finding G13); (lock-balanced) every path pairs and balances mux; (lfu-bucket-matches-count) an item is filed only into a frequency bucket whose frequency equals its new use count (1, or old+1). Victim choice otherwise and sketch arithmetic are not decided.",
+		NotDecided:  []string{"which victim LRU/SLRU/TinyLFU choose, and LFU beyond the per-operation bucket invariant (lfu-bucket-matches-count) (value-level)", "lookup-returns-latest-value over operation sequences", "count-min sketch / bloom filter arithmetic", "behaviour at negative capacities (capacities are assumed non-negative; capacity 0 is decided: G13)", "asynchronous callback timing"},
 		Assumptions: []string{"generic instantiations are not distinguished (the generic body is analysed once)", "container/list behaves as documented"},
 		Tech:        "static analysis: lock-state dataflow, structural pairing (must-pass-through both ways), guarded-by-condition and per-implementation Admit-populates-what-Access/Remove-index contract on the SSA of the generic bodies",
 		NeedU1:      true,
-		Rules:       []func(*Ctx){ruleC15Lock, ruleC15Bijection, ruleC15Bounded, ruleC15CallbackExactlyOnce, ruleC15AdmitRegisters, ruleC15RegistrationFollowsSegment, ruleC15SegmentFlagFollowsList, ruleC15ListEndsNonEmpty, ruleC15NoReentry, ruleC15RemoveUnlinks, ruleC15RelinkIsAMove, ruleC15ElementRecorded, ruleC15SegmentMoveConserves, ruleC15RemovalNotifies, ruleC15VictimNonNil, ruleC15SetStoresValue, ruleC15ExpiryEvicts, lockBalancedRule("C15", 8, lockDomSpec{pkgCache, "cache", "mux"}), nilContradictionRule("C15", false, "github.com/godaddy/asherah/go/appencryption/pkg/cache")},
+		Rules:       []func(*Ctx){ruleC15Lock, ruleC15Bijection, ruleC15Bounded, ruleC15CallbackExactlyOnce, ruleC15AdmitRegisters, ruleC15RegistrationFollowsSegment, ruleC15SegmentFlagFollowsList, ruleC15ListEndsNonEmpty, ruleC15NoReentry, ruleC15RemoveUnlinks, ruleC15RelinkIsAMove, ruleC15ElementRecorded, ruleC15SegmentMoveConserves, ruleC15RemovalNotifies, ruleC15VictimNonNil, ruleC15SetStoresValue, ruleC15ExpiryEvicts, ruleC15LFUBucket, lockBalancedRule("C15", 8, lockDomSpec{pkgCache, "cache", "mux"}), nilContradictionRule("C15", false, "github.com/godaddy/asherah/go/appencryption/pkg/cache")},
 	})
 }
 
@@ -141,7 +144,7 @@ func travelTogether(a, b ssa.Instruction) bool {
 
 func ruleC15Bijection(c *Ctx) {
 	u := c.U1
-	c.rule("C15.bijection", "in every method of cache[K,V]: each byKey insert travels with exactly one size++ and one policy.Admit, each delete(byKey) with exactly one size-- and one policy.Remove, on every path", 3)
+	c.rule("C15.bijection", "in every method of cache[K,V]: each byKey insert travels with exactly one size++ and one policy.Admit, each delete(byKey) with exactly one size-- and one policy.Remove, on every path", 2)
 	for _, f := range u.RepoFuncs {
 		if f.Signature.Recv() == nil || !typeIsNamed(f.Signature.Recv().Type(), pkgCache, "cache") {
 			continue
